@@ -265,6 +265,7 @@ pub fn edits(args: &[String], out: &mut Out) {
                 "drop_last_map" => { m2.pop(); }
                 "extra_empty_map" => m2.push(vec![]),
                 "truncate_1" => { let mut b = bytes.clone(); b.pop(); raw = Some(b); }
+                "trailing_byte" => { let mut b = bytes.clone(); b.push(0x00); raw = Some(b); }
                 x => panic!("top op {}", x),
             }
         } else {
@@ -288,6 +289,15 @@ pub fn edits(args: &[String], out: &mut Out) {
         let b2 = raw.unwrap_or_else(|| kv_write(&m2));
         let want_ok = c["ok"].as_bool().unwrap();
         let case = json!({"case": c, "case_index": ci});
+        // the text entry point (base64) must give the verdict of the binary one
+        {
+            use elements::bitcoin::base64::prelude::{Engine as _, BASE64_STANDARD};
+            let text = BASE64_STANDARD.encode(&b2);
+            match (guard(|| Pset::from_str(&text)), guard(|| deserialize::<Pset>(&b2))) {
+                (Ok(t), Ok(b)) => { if t.is_ok() != b.is_ok() || (t.is_ok() && t.as_ref().ok() != b.as_ref().ok()) { out.viol(&format!("C07/base64/verdict-differs-from-binary/{}", cls), case.clone(), format!("text ok={} binary ok={}", t.is_ok(), b.is_ok())); } }
+                _ => {}
+            }
+        }
         match guard(|| deserialize::<Pset>(&b2)) {
             Err(p) => out.viol(&format!("C07/panic/{}", last_panic_loc()), case, p),
             Ok(Err(e)) => { if want_ok { out.viol(&format!("C07/edit/valid-rejected/{}", cls), case, e.to_string()); } }
